@@ -123,14 +123,14 @@ def readInput (delim : Option UInt8) (input : List UInt8) : List Arg × Bool :=
 /-- `xargs_main` after clap: option values validated, options normalised, limiters
     wired, input read and processed, exit status mapped. -/
 def xargsMain (opts : List Opt) (cmd : List (List UInt8)) (input : List UInt8)
-    (script : List Outcome) (sys : Nat) : MainResult :=
+    (script : List Outcome) (sys : Nat) (ptr : Nat := 8) (maxArg : Nat := 131072) : MainResult :=
   -- clap: an option with `ArgAction::Set`/`SetTrue` may be given only once
   if dupOpts opts then ⟨1, []⟩ else
   -- validate_positive_usize
   if opts.any (fun | .n 0 => true | .l 0 => true | .s 0 => true | _ => false) then ⟨1, []⟩ else
   let nz := normalize opts
   let sOpt := lastVal opts (fun | .s v => some v | _ => none)
-  let lim : Limits := ⟨nz.n, nz.l, sOpt, sys⟩
+  let lim : Limits := ⟨nz.n, nz.l, sOpt, sys, ptr, maxArg⟩
   let cfg : Config :=
     { lim := lim, x := opts.any (· == .x),
       r := opts.any (· == .r) || nz.replace.isSome,
